@@ -3,8 +3,8 @@ CONSTANTS
   MaxEvents = 2
   MaxTerm = 1
   MaxSrcTerm = 1
-  MaxHB = 1
-  UseD = TRUE
+  MaxHB = 0
+  UseD = FALSE
   StartModes <- StartOK
   FixD5 = TRUE
   FixD6 = TRUE
